@@ -546,3 +546,16 @@ def flatten_tokens(action):
             out.extend(flatten_tokens(sub))
         return out
     return [(action[1], action[2])]
+
+
+def runner_factory_for(name):
+    """None (plain RunTest) | "sync" | "async" (on a fresh virtual-time reactor)."""
+    if name == "sync":
+        from testtools.twistedsupport import SynchronousDeferredRunTest
+        return SynchronousDeferredRunTest
+    if name == "async":
+        from testtools.twistedsupport import AsynchronousDeferredRunTest
+        from . import vreactor
+        return AsynchronousDeferredRunTest.make_factory(
+            reactor=vreactor.make_reactor(), timeout=30, store_twisted_logs=False)
+    return None
